@@ -40,6 +40,7 @@ def case_key(k):
 
 
 LIVE_KINDS = ['iter', 'map', 'reversed', 'zip', 'filter', 'enumerate', 'set', 'frozenset', 'range', 'keys', 'values', 'deque', 'bytes']
+DICT_KINDS = ['defaultdict', 'defaultdict-dict', 'ordereddict', 'counter']     # dict subclasses: valid metadata containers
 
 
 def live_value(kind, items):
@@ -71,6 +72,14 @@ def live_value(kind, items):
         return collections.deque(items)
     if kind == 'bytes':
         return ''.join(map(str, items)).encode()
+    if kind == 'defaultdict':
+        return collections.defaultdict(list, [(k, v) for k, v in items])      # reading a missing key INSERTS it
+    if kind == 'defaultdict-dict':
+        return collections.defaultdict(dict, [(k, v) for k, v in items])
+    if kind == 'ordereddict':
+        return collections.OrderedDict([(k, v) for k, v in items])
+    if kind == 'counter':
+        return collections.Counter({k: 1 for k, v in items})
     raise ValueError(kind)
 
 
